@@ -351,6 +351,7 @@ func blockedAt() string {
 }
 
 func run(c Case) kit.Verdict {
+	h2kit.ShortShrink()
 	v, slow := runOnce(c, kit.T())
 	if !slow {
 		return v
